@@ -1,11 +1,11 @@
 /-
-  Proofs/C18Float.lean — helper lemmas for Props/C18Float.lean (constants, integer casts,
+  Proofs/F64P_C18Float.lean — helper lemmas for Props/F64P_C18Float.lean (constants, integer casts,
   the pure rational arithmetic of the rounding chains).
 -/
-import ScionTime.Model.UnixutilFloat
+import ScionTime.Model.F64P_UnixutilFloat
 import ScionTime.Proofs.F64
-namespace ScionTime.C18Float
-open ScionTime.F64 ScionTime.UnixutilFloat
+namespace ScionTime.F64P_C18Float
+open ScionTime.F64 ScionTime.F64P_UnixutilFloat
 
 /-! ### constants -/
 
@@ -165,4 +165,4 @@ theorem drift_final {Rv E T : Rat}
   rcases abs_cases E with ⟨hE, aE⟩ | ⟨hE, aE⟩ <;> rw [aE] at h ⊢ <;>
   exact abs_le_iff.2 ⟨by grind, by grind⟩
 
-end ScionTime.C18Float
+end ScionTime.F64P_C18Float
